@@ -21,6 +21,7 @@ From TI Require Import model.Iter model.IterSpec proofs.IterProofs proofs.IterPr
      proofs.IterProofs3 proofs.IterProofs4 proofs.IterExamples.
 From TI Require gen.IterSrc proofs.IterSrcTie.
 From TI Require Import model.IterEnv model.IterSession proofs.IterEnvProofs proofs.IterEnvExamples.
+From TI Require Import model.IterArgs proofs.IterArgsProofs.
 Open Scope Z_scope.
 
 (** for EVERY history: frames (number, duration, size, output, padding), countdown, errors
@@ -371,3 +372,109 @@ Theorem C08_second_iterator_is_fresh :
       forall h2, trace_env RS render n s2 h2 = spec_trace_env RS render n (a2, None) h2.
 Proof. exact second_iterator_is_fresh. Qed.
 Print Assumptions C08_second_iterator_is_fresh.
+
+(** *** render arguments offered BY CLASS RELATION (model/IterArgs.v)
+
+    The render arguments handed to [set_render_args] / the constructors are associated with a
+    render class; what the iterator does with them depends on the relation of that class to the
+    class of the iterated renderable: the SAME class (installed as is), an ANCESTOR's (converted:
+    accepted), a DESCENDANT's (subclass) or an UNRELATED one (incompatible).  [install] is the
+    code's class test + [RenderArgs(render_cls, render_args)]; [doc_install] the documented
+    compatibility rule.
+
+    The code accepts exactly the compatible relations, with the documented resulting arguments *)
+Theorem C08_args_install_is_documented :
+  forall x, install x = doc_install x.
+Proof. exact install_is_doc. Qed.
+Print Assumptions C08_args_install_is_documented.
+
+Theorem C08_args_accepted_iff_compatible :
+  forall x, (exists v, install x = Some v) <-> compatible (o_rel x) = true.
+Proof. exact install_accepts_iff_compatible. Qed.
+Print Assumptions C08_args_accepted_iff_compatible.
+
+(** [set_render_args] with arguments of a subclass of the renderable's class or of an unrelated
+    class: IncompatibleRenderArgsError (FinalizedIteratorError on a finalized iterator) and the
+    WHOLE state of the code model is unchanged - in every state, hence after every history *)
+Theorem C08_incompatible_set_args_rejected :
+  forall RS render n term (s : state RS) x,
+    compatible (o_rel x) = false ->
+    step RS render n term s (lower install (ASetArgs x)) =
+    (s, OErr (if closed s then EFinalized else EIncompat)).
+Proof. exact incompatible_set_args_rejected. Qed.
+Print Assumptions C08_incompatible_set_args_rejected.
+
+(** ... so that, in any history, the rejected call is answered by the error and is otherwise
+    invisible: what follows is the trace from the state before it *)
+Theorem C08_rejected_set_args_invisible :
+  forall RS render n term (s : state RS) h x h',
+    compatible (o_rel x) = false ->
+    let s' := run RS render n term s (map (lower install) h) in
+    trace RS render n term s (map (lower install) (h ++ ASetArgs x :: h')) =
+    trace RS render n term s (map (lower install) h)
+    ++ (OErr (if closed s' then EFinalized else EIncompat), pub_loop s')
+    :: trace RS render n term s' (map (lower install) h').
+Proof. exact rejected_set_args_invisible. Qed.
+Print Assumptions C08_rejected_set_args_invisible.
+
+(** compatible arguments: accepted, the arguments in force become the documented ones (an
+    ancestor's converted: its namespaces kept, defaults for the rest), nothing else changes *)
+Theorem C08_compatible_set_args_installed :
+  forall RS render n term (s : state RS) x,
+    compatible (o_rel x) = true -> closed s = false ->
+    step RS render n term s (lower install (ASetArgs x)) = (set_args RS s (doc_value x), OOk).
+Proof. exact compatible_set_args_installed. Qed.
+Print Assumptions C08_compatible_set_args_installed.
+
+(** the constructors ([RenderIterator(...)], [_from_render_data_]) *)
+Theorem C08_mk_accepts_compatible_only :
+  forall RS n term c x rs0 s,
+    mk RS n term (with_args install c (Some x)) rs0 = inl s ->
+    compatible (o_rel x) = true /\ args s = doc_value x.
+Proof. exact mk_accepts_compatible_only. Qed.
+Print Assumptions C08_mk_accepts_compatible_only.
+
+Theorem C08_mk_rejects_incompatible :
+  forall RS n term c x rs0,
+    compatible (o_rel x) = false ->
+    exists e, mk RS n term (with_args install c (Some x)) rs0 = inr e /\
+              spec_mk RS n term (with_args doc_install c (Some x)) rs0 = inr e /\
+              (e = EValue \/ e = EIncompat).
+Proof. exact mk_rejects_incompatible. Qed.
+Print Assumptions C08_mk_rejects_incompatible.
+
+(** for EVERY history whose [set_render_args] carry arguments of any of the four relations: the
+    trace of the code is the trace of the documented machine under the documented rule; also in a
+    changing environment *)
+Theorem C08_args_history_refines_spec :
+  forall RS render n term c x0 rs0 s a h,
+    (cache_decision n (c_cache c) = false \/ render_det RS render) ->
+    mk RS n term (with_args install c x0) rs0 = inl s ->
+    spec_mk RS n term (with_args doc_install c x0) rs0 = inl a ->
+    trace RS render n term s (map (lower install) h) =
+    spec_trace RS render n term a (map (lower doc_install) h).
+Proof. exact args_history_refines_spec. Qed.
+Print Assumptions C08_args_history_refines_spec.
+
+Theorem C08_args_env_history_refines_spec :
+  forall RS render n term0 c x0 rs0 s a h,
+    (cache_decision n (c_cache c) = false \/ render_det RS render) ->
+    mk RS n term0 (with_args install c x0) rs0 = inl s ->
+    spec_mk RS n term0 (with_args doc_install c x0) rs0 = inl a ->
+    trace_env RS render n s (map (lower_ev install) h) =
+    spec_trace_env RS render n (a, None) (map (lower_ev doc_install) h).
+Proof. exact args_env_history_refines_spec. Qed.
+Print Assumptions C08_args_env_history_refines_spec.
+
+(** EXCLUDED design: taking the "no conversion needed" path for
+    [issubclass(render_args.render_cls, render_cls)] installs incompatible arguments; the frames
+    that follow contradict the documented machine *)
+Theorem C08_args_issubclass_fast_path_refuted :
+  (compatible (o_rel ex_leaf) = false /\ install ex_leaf = None /\ install_issub ex_leaf = Some 203) /\
+  exists s a,
+    mk unit (Some 3) (80, 30) (with_args install_issub ex_cfg (Some {| o_rel := CSame; o_inh := 1; o_own := 1 |})) tt = inl s /\
+    spec_mk unit (Some 3) (80, 30) (with_args doc_install ex_cfg (Some {| o_rel := CSame; o_inh := 1; o_own := 1 |})) tt = inl a /\
+    map fst (trace unit show_render (Some 3) (80, 30) s (map (lower install_issub) ex_hist)) <>
+    map fst (spec_trace unit show_render (Some 3) (80, 30) a (map (lower doc_install) ex_hist)).
+Proof. exact (conj issub_accepts_incompatible issub_variant_refuted). Qed.
+Print Assumptions C08_args_issubclass_fast_path_refuted.
